@@ -163,7 +163,7 @@ CLAIMED.update({
              "still destroyed, the world invariant holds again: allocator coupled to the entity timeline, every storage well formed, every storage in the meta table; only the indices whose purge was cut short are exempted from "
              "components-only-at-occupied-indices); continuation_stays_well_formed (every further history keeps it, so every later op returns normally and refines the plain map of C04 — nothing can read a moved-out or destroyed slot); "
              "purge_step_removes_what_it_destroys (bit cleared and value moved out before it is destroyed: no double drop); interrupted_purge_frame; interrupted_clear_reports_empty (mask swapped out first); "
-             "interrupted_bulk_destroys_subset. Correspondence: the harness arms a panicking Drop at position n (instrumented components), catches the unwind (and, `uins`, performs insertions from a scope guard's destructor WHILE a destructor panic unwinds — the same model op as a plain insertion), prints the destroyed values and a full dump of every storage; the "
+             "interrupted_bulk_destroys_subset; insertion_after_fault_is_kept (in every storage a fault leaves behind, insert of a live handle returns normally, sets the bit, keeps the value readable and touches no other entry). Correspondence: the harness arms a panicking Drop at position n (instrumented components), catches the unwind (and, `uins`, performs insertions from a scope guard's destructor WHILE a destructor panic unwinds — the same model op as a plain insertion), prints the destroyed values and a full dump of every storage; the "
              "model predicts result, destroyed multiset and dump; the monitor checks no value destroyed twice, no destroyed value visible in any dump/lookup, and that the rest of the history (through drop_world) conforms.",
         technique="Lean 4 proof (world invariant with an exemption set, re-established after every interrupted operation and preserved by every continuation) on a hand-written fault model + fault-injection differential check + ledger/exposure monitor",
         design="7/C19", note=STORE_NOTE + " Zero values (unit value of the null storage, default fillers) never panic in model and harness; faults inside lazily queued actions are not modelled nor injected; which of the remaining values "
